@@ -400,7 +400,7 @@ func c20Check(x *core.Ctx, c *core.Case) {
 		var srcs []*ast.Source
 		names := []string{}
 		for j := 0; j < n; j++ {
-			s := &ast.Source{Name: fmt.Sprintf("part%d.graphql", j), Input: c.Get(fmt.Sprintf("src%d", j))}
+			s := &ast.Source{Name: fmt.Sprintf("part%d.graphql", j), Input: c.Get(fmt.Sprintf("src%d", j)), BuiltIn: (len(c.Get("src0"))+j)%3 == 0}
 			srcs = append(srcs, s)
 			names = append(names, s.Name)
 		}
